@@ -107,6 +107,8 @@ class World(object):
             kinds = {t for t in tags if ":" not in t} - {"none"}
             if kinds == {"int"}:
                 it.field_kinds[fld] = "int"
+        for (k, fld), tags in self.lite.field_types_by_cls.items():
+            it.field_types_by_cls[(k, fld)] = frozenset(t for t in tags if t in classes or t == "INFINITY")
         it.global_writers = self.lite.global_writers
         it.infeasible = INFEASIBLE
         it.class_invariants["baselen"] = _curve_invariant("baselen", only_cls="Curve")
@@ -154,8 +156,10 @@ def _curve_invariant(field, only_cls=None):
     it is stored under.  Sound because these fields have Curve.__init__ as sole writer
     (checked) and the parameters are stored unchanged."""
     def inv(interp, st, recv):
-        if only_cls and recv.cls != frozenset([only_cls]):
-            return None
+        if only_cls:
+            owners = {k for k in (recv.cls or ()) if (k, field) in interp.field_types_by_cls}
+            if owners != {only_cls}:
+                return None
         key = (field, recv.t)
         if key in _inv_cache:
             return _inv_cache[key]
